@@ -43,7 +43,12 @@ func ResolveSymbolicLink(path string) (string, error) {
 			// no symbolic link detected
 			return path, nil
 		}
-		resolved := strings.Replace(path, part, sym, 1)
+		// replace the symbolic link where it was found: at the start of the path, on a component boundary
+		// (its clean spelling may also occur as plain text further up, e.g. /srv/app in /srv/app-compose/../app/src)
+		resolved := path
+		if path == part || strings.HasPrefix(path, part+string(os.PathSeparator)) {
+			resolved = sym + strings.TrimPrefix(path, part)
+		}
 		if resolved == path {
 			return path, nil
 		}
